@@ -390,6 +390,118 @@ func RMinLen(c *core.Ctx) {
 	}
 }
 
+// R-MINLENZERO: MinRequiredLength is how much text an attempt needs — it counts
+// what a leading lookahead needs too — not how long a match is.  `min == 0` /
+// `min > 0` therefore says nothing about matches being empty or not; the only
+// use of such a test is to skip a length comparison that would be vacuous.
+func RMinLenZero(c *core.Ctx) {
+	c.Rule("R-MINLENZERO", "a function that compares FindOptimizations.MinRequiredLength with a constant also uses that value against the text (a comparison with a non-constant length, or as the subtrahend of `end - min`): the constant test may only short-cut a vacuous length check. A predicate built from `MinRequiredLength == 0` alone (\"can match empty\") is wrong for (?=a)a* — the lookahead needs a character, the match may be empty", 2)
+	p := c.P
+	minF := p.LookupField("syntax", "FindOptimizations", "MinRequiredLength")
+	if minF == nil {
+		c.Anchor("syntax.FindOptimizations.MinRequiredLength")
+		return
+	}
+	n := 0
+	for _, fn := range p.ModuleFuncs() {
+		// values of the field in this function: loads, and what they flow into through phis / local cells / parameters named for it
+		src := map[ssa.Value]bool{}
+		for _, prm := range fn.Params {
+			if strings.Contains(strings.ToLower(prm.Name()), "minrequired") {
+				src[prm] = true
+			}
+		}
+		for changed := true; changed; {
+			changed = false
+			for _, b := range fn.Blocks {
+				for _, ins := range b.Instrs {
+					v, isV := ins.(ssa.Value)
+					if !isV || src[v] {
+						continue
+					}
+					switch x := ins.(type) {
+					case *ssa.UnOp:
+						if x.Op == token.MUL {
+							if core.FieldVarOfAddr(x.X) == minF {
+								src[v], changed = true, true
+							}
+							if al, ok := x.X.(*ssa.Alloc); ok {
+								for _, r := range core.Referrers(al) {
+									if st, ok := r.(*ssa.Store); ok && src[st.Val] {
+										src[v], changed = true, true
+									}
+								}
+							}
+						}
+					case *ssa.Phi:
+						for _, e := range x.Edges {
+							if src[e] {
+								src[v], changed = true, true
+							}
+						}
+					case *ssa.Convert:
+						if src[x.X] {
+							src[v], changed = true, true
+						}
+					}
+				}
+			}
+		}
+		if len(src) == 0 {
+			continue
+		}
+		var constCmp []*ssa.BinOp
+		textUse := false
+		for _, b := range fn.Blocks {
+			for _, ins := range b.Instrs {
+				bin, ok := ins.(*ssa.BinOp)
+				if !ok || (!src[bin.X] && !src[bin.Y]) {
+					continue
+				}
+				other := bin.Y
+				if src[bin.Y] && !src[bin.X] {
+					other = bin.X
+				}
+				_, otherConst := other.(*ssa.Const)
+				switch bin.Op {
+				case token.LSS, token.LEQ, token.GTR, token.GEQ, token.EQL, token.NEQ:
+					if otherConst {
+						constCmp = append(constCmp, bin)
+					} else if !src[other] {
+						textUse = true
+					}
+				case token.SUB:
+					if src[bin.Y] && !src[bin.X] {
+						textUse = true
+					}
+				}
+			}
+		}
+		// handing the value on to a function that uses it against the text counts
+		for _, b := range fn.Blocks {
+			for _, ins := range b.Instrs {
+				if ci, ok := ins.(ssa.CallInstruction); ok {
+					for _, a := range ci.Common().Args {
+						if src[a] {
+							textUse = true
+						}
+					}
+				}
+			}
+		}
+		for i, bin := range constCmp {
+			n++
+			name := core.SSAName(fn)
+			c.Visit(name)
+			c.Check(textUse, fmt.Sprintf("%s / constant test #%d on the minimum required length only short-cuts a length check", name, i+1), bin.Pos(),
+				"`%s` is the only use of the minimum required length in this function: it is being read as 'the shortest match', but it is the amount of text an attempt needs (lookaheads included)", bin.String())
+		}
+	}
+	if n == 0 {
+		c.Anchor("comparisons of MinRequiredLength with a constant")
+	}
+}
+
 // R-FDSIB: the raw-string fixed-distance filters agree on how they call the
 // shared candidate-start helper: the lower bound handed to
 // stringFixedDistanceCandidateStart is the filter's own startAt parameter
